@@ -954,6 +954,9 @@ func (r *resolver) refine(target Definition, y *Refine) error {
 	if y.mandatoryPtr != nil {
 		r.builder.Mandatory(target, *y.mandatoryPtr)
 	}
+	if y.presence != "" {
+		r.builder.Presence(target, y.presence)
+	}
 	if y.maxElementsPtr != nil {
 		r.builder.MaxElements(target, *y.maxElementsPtr)
 	}
